@@ -381,6 +381,20 @@ func workersUnknown(ws []*Worker) int {
 }
 
 func (w *Worker) runPath(fn *ssa.Function, item WorkItem) {
+	// a back end that crashes (z3 occasionally dies under memory pressure) is restarted; the path is re-run
+	for attempt := 0; ; attempt++ {
+		again, taken := w.runPathOnce(fn, item, attempt < 2)
+		if !again {
+			return
+		}
+		// continue from the decisions already taken (their alternatives are queued already)
+		item = WorkItem{trail: append([]Decision{}, taken...)}
+	}
+}
+
+// runPathOnce explores one path; it returns true when the path ended because
+// the solver process died and retry was allowed (nothing was recorded).
+func (w *Worker) runPathOnce(fn *ssa.Function, item WorkItem, retry bool) (bool, []Decision) {
 	ex := w.ex
 	p := w.newPath(item.trail)
 	w.path = p
@@ -451,6 +465,13 @@ func (w *Worker) runPath(fn *ssa.Function, item WorkItem) {
 	}()
 	w.rollback()
 	w.logging = false
+	if retry && outcome == "error" && strings.Contains(detail, "solver died") {
+		ex.mu.Lock()
+		ex.stats.SolverRestarts++
+		ex.mu.Unlock()
+		w.solver.lastErr = ""
+		return true, p.taken
+	}
 	ex.mu.Lock()
 	st := &ex.stats
 	st.Paths++
@@ -518,4 +539,5 @@ func (w *Worker) runPath(fn *ssa.Function, item WorkItem) {
 	if *flagVerbose && outcome != "ok" && outcome != "assume" {
 		fmt.Fprintf(os.Stderr, "[%s] path %s: %s %s\n", ex.harness, trailString(p.taken), outcome, detail)
 	}
+	return false, nil
 }
